@@ -220,7 +220,7 @@ def replay_zippy_edges(jobfile, edges_file, shards=None):
     return tot
 
 
-def check_instance(name, desc, wd, qmax=1, maxep=0, maxmod=0, maxidle=0, maxhold=3, since_cap=0, bug="none", edges=True, workers=6, timeout=900, replay=True):
+def check_instance(name, desc, wd, qmax=1, maxep=0, maxmod=0, maxidle=0, maxhold=3, since_cap=0, bug="none", edges=True, workers=4, timeout=900, replay=True):
     """TLC exhaustive run (binding D) + edge-cover replay on the real code (binding B)."""
     t0 = time.time()
     C = cfgdesc.code
@@ -361,6 +361,24 @@ def deadline_probes(desc):
     return out
 
 
+def entry_pairs(desc):
+    """One entry after another: for every ordered pair of dictionary lines the first line's chords are performed (each
+    released), then the second line's."""
+    C = cfgdesc.code
+    out = []
+    for l1 in desc["lines"]:
+        for l2 in desc["lines"]:
+            s = []
+            for ln in (l1, l2):
+                for ch in ln["chain"]:
+                    for k in ch:
+                        s += [["d", C(k)], ["t", 1]]
+                    for k in ch:
+                        s += [["u", C(k)], ["t", 1]]
+            out.append(s + [["t", desc["W"] + desc["D"] + 3]])
+    return out
+
+
 def rand_typing(rng, desc, n_events):
     """Physically consistent random typing with gaps around the deadline / the re-enable time."""
     C = cfgdesc.code
@@ -420,7 +438,9 @@ def rand_dict(rng, tier, small=False):
     D = rng.choice([2, 3, 5, 20])
     W = rng.choice([1, 2, 3, 15])
     keys = ["a", "b", "c", "spc"] + (["comm"] if ss == "full" else [])
-    return {"lines": lines, "D": D, "W": W, "ss": ss, "punct": None, "keys": keys,
+    # the punctuation list as written replaces the default one: a default member left out / another key added
+    punct = rng.choice([None, ["scln"], ["c"], ["comm", "c"]]) if ss == "full" else None
+    return {"lines": lines, "D": D, "W": W, "ss": ss, "punct": punct, "keys": keys,
             "mods": rng.choice([["lsft"], ["lsft", "rsft"], ["lsft", "ralt"]])}
 
 
@@ -449,6 +469,8 @@ def family(tier):
         ("sft", _desc([(["ab"], "Hi"), (["ab", "a"], "him")], "ab", ["rsft"]), dict(hold=3)),
         # smart space full; a follow-up chord started by a punctuation key (the space is erased, then the antecedent)
         ("ssp", _desc([(["ab"], "hi"), (["ab", ["comm"]], "ho")], ["a", "b", "comm"], ss="full"), dict(hold=3)),
+        # smart-space-punctuation as written: c is punctuation, the default comma is not
+        ("pct", _desc([(["ab"], "hi")], ["a", "b", "c", "comm"], ss="full", punct=["c"]), dict(hold=3)),
         ("spc", _desc([([" a"], "and"), ([" ab"], "about")], ["spc", "a", "b"], ss="add-space-only"), dict(hold=3)),
     ]
     if tier == "quick":
@@ -506,7 +528,7 @@ def run(tier, seed):
 
     # D + B: TLC explores Zippy || P_C20, every transition replayed on the real code
     for name, desc, b in family(tier) + ([] if quick else random_instances(rng, 8)):
-        r = check_instance(name, desc, wd, maxhold=b["hold"], workers=6, timeout=1500)
+        r = check_instance(name, desc, wd, maxhold=b["hold"], workers=4, timeout=1500)
         res.add_instance(r)
         if r.get("skipped"):
             res.notes.append("instance %s not explored by TLC: %s" % (name, r["skipped"]))
@@ -520,7 +542,7 @@ def run(tier, seed):
         if ds:
             pick = ds[:120] + rng.sample(ds[120:], min(len(ds) - 120, 80)) if len(ds) > 120 else ds
             groups["drift"].append(job(desc, "d:" + name, [complete(d["h"], desc) for d in pick]))
-        groups["attempts"].append(job(desc, "a:" + name, chord_attempts(desc, rng, limit=250 if quick else 2000)))
+        groups["attempts"].append(job(desc, "a:" + name, entry_pairs(desc) + chord_attempts(desc, rng, limit=250 if quick else 2000)))
         groups["random"].append(job(desc, "r:" + name, [rand_typing(rng, desc, rng.randint(4, 40)) for _ in range(20 if quick else 150)]))
     # C beyond the bounds of the exhaustive instances: random dictionaries (<= 4 lines over {a, b, c, space}), larger
     # deadlines, both shifts / altgr, the quantifier's attempts and random typing
@@ -530,9 +552,12 @@ def run(tier, seed):
             for D, W in ((1000, 60), (200, 700)):
                 d2 = dict(desc, D=D, W=W)
                 groups["attempts"].append(job(d2, "t:%s_D%d" % (name, D), deadline_probes(d2) + chord_attempts(d2, rng, limit=40 if quick else 300)))
+    # a line whose first chord has no line of its own (empty-output prefix chord) next to a chord with follow-ups
+    epf = _desc([(["ab"], "day"), (["ab", "a"], "do"), (["c", "ab"], "rec"), (["c", "b"], "re")], "abc", D=3, W=2)
+    groups["attempts"].append(job(epf, "a:epf", entry_pairs(epf) + chord_attempts(epf, rng, limit=60 if quick else 600)))
     for i in range(10 if quick else 100):
         desc = rand_dict(rng, tier)
-        groups["attempts"].append(job(desc, "a:rd%d" % i, chord_attempts(desc, rng, limit=120 if quick else 500)))
+        groups["attempts"].append(job(desc, "a:rd%d" % i, entry_pairs(desc) + chord_attempts(desc, rng, limit=120 if quick else 500)))
         groups["random"].append(job(desc, "r:rd%d" % i, [rand_typing(rng, desc, rng.randint(4, 60)) for _ in range(30 if quick else 120)]))
     nrej = 0
     classes = {}
